@@ -25,6 +25,8 @@ import Nervus.Proofs.CypherExpand
 import Nervus.Proofs.CypherJoin
 import Nervus.Proofs.CypherAgg
 import Nervus.Proofs.CypherCore
+import Nervus.Proofs.CypherF1a
+import Nervus.Proofs.CypherF1aDir
 import Nervus.Model.QRun
 import Nervus.Model.QAlgebra
 namespace Nervus.Props.C11
@@ -56,6 +58,59 @@ theorem C11_core (A : Algebra) (env : Env) (q : Query) (hc : InCore q = true) (h
 theorem C11_core_agrees (A : Algebra) (env : Env) (q : Query) (hc : InCore q = true) (hs : Spec.WellScoped q) :
     Agrees (Exec.run A env q) (Spec.denote A env q) :=
   agrees_of_eq _ _ (core_refines A env q hc hs)
+
+/-- **C11 on F1a, node patterns** — `MATCH (a:L1:L2…)` as the first clause, followed by any core clauses (a WHERE
+    whose equality conjuncts the planner pushes down into the scan / an IndexSeek, UNWIND, WITH, RETURN with
+    DISTINCT / SKIP / LIMIT): compile = anchor scan + pushed-down filters + label filters, and the modelled engine
+    returns EXACTLY the reference's list of rows, or the same error.  `EqSymm`: the algebra's `=` is symmetric
+    (`extract_predicates` also takes `<literal> = a.k`). -/
+theorem C11_F1a_node (A : Algebra) (env : Env) (hsym : EqSymm A) (hg : env.g.NodesDistinct) (a : String)
+    (ls : List String) (tail : Query) (hc : coreClauses true tail = true)
+    (hs : Spec.WellScoped (.match_ false [⟨⟨some a, ls, []⟩, []⟩] :: tail)) :
+    Exec.run A env (.match_ false [⟨⟨some a, ls, []⟩, []⟩] :: tail) =
+      (Spec.denote A env (.match_ false [⟨⟨some a, ls, []⟩, []⟩] :: tail)).map Spec.Result.rows :=
+  f1a_node_refines A env hsym hg a ls tail hc hs
+
+/-- **C11 on F1a, single outgoing hop** — `MATCH (a:La)-[ev:T1|T2…]->(d:Ld)` as the first clause, followed by core
+    clauses without DISTINCT / SKIP / LIMIT (`bagClauses`), on graphs without parallel relationship copies
+    (`NoParallel`, the trigger of C11-parallel-rel-reuse): the compiled plan (anchor scan + IndexSeek, label filters,
+    MatchOut with destination labels and the hidden path column, WHERE equality conjuncts pushed down on all three
+    aliases) and the reference return the same bag of rows.  Side conditions: distinct variable names, none of them
+    (nor a later alias) the internal path name `pa0`; relationship types listed once. -/
+theorem C11_F1a_hop_out (A : Algebra) (env : Env) (hsym : EqSymm A) (hg : env.g.NodesDistinct)
+    (hnp : NoParallel env.g) (a d : String) (la dl rels : List String) (ev : Option String) (tail : Query)
+    (hrels : rels.Nodup) (had : a ≠ d) (hev : ∀ e, ev = some e → e ≠ a ∧ e ≠ d)
+    (hap : a ≠ pa0) (hdp : d ≠ pa0) (hep : ∀ e, ev = some e → e ≠ pa0) (hin : pa0 ∉ introduced tail)
+    (hc : bagClauses true tail = true)
+    (hs : Spec.WellScoped (.match_ false [hopPat a la ev rels d dl] :: tail)) :
+    Agrees (Exec.run A env (.match_ false [hopPat a la ev rels d dl] :: tail))
+      (Spec.denote A env (.match_ false [hopPat a la ev rels d dl] :: tail)) :=
+  f1a_hop_out_agrees A env hsym hg hnp a d la dl rels ev tail hrels had hev hap hdp hep hin hc hs
+
+/-- **C11 on F1a, one hop in any direction** — `MATCH (a:La)-[ev:T…]->(d:Ld)`, `<-[…]-` or `-[…]-` (undirected, with
+    the self-loop rule) as the first clause, then core clauses without DISTINCT / SKIP / LIMIT, on graphs without
+    parallel copies: the same bag of rows.  For the incoming and the undirected hop the engine binds the
+    destination before the relationship variable, so model and reference rows agree up to column order until the
+    first projection (`HRelE`). -/
+theorem C11_F1a_hop (A : Algebra) (env : Env) (hsym : EqSymm A) (hg : env.g.NodesDistinct)
+    (hnp : NoParallel env.g) (dir : Dir) (a d : String) (la dl rels : List String) (ev : Option String)
+    (tail : Query) (hrels : rels.Nodup) (had : a ≠ d) (hev : ∀ e, ev = some e → e ≠ a ∧ e ≠ d)
+    (hap : a ≠ pa0) (hdp : d ≠ pa0) (hep : ∀ e, ev = some e → e ≠ pa0) (hin : pa0 ∉ introduced tail)
+    (hc : bagClauses true tail = true)
+    (hs : Spec.WellScoped (.match_ false [hopPatD dir a la ev rels d dl] :: tail)) :
+    Agrees (Exec.run A env (.match_ false [hopPatD dir a la ev rels d dl] :: tail))
+      (Spec.denote A env (.match_ false [hopPatD dir a la ev rels d dl] :: tail)) :=
+  f1a_hop_agrees A env hsym hg hnp dir a d la dl rels ev tail hrels had hev hap hdp hep hin hc hs
+
+/-- the reference's core clauses (no DISTINCT / SKIP / LIMIT: `bagClauses`) respect "same bag of rows once the hidden
+    path column is erased" — the relation between the rows of a MATCH plan and the reference's rows; with
+    `C11_core_induction` this reduces an F1a query to its MATCH step -/
+theorem C11_core_bag_congruence (A : Algebra) (env : Env) (pa : String) (q : Query) (b : Bool) (s s' : List String)
+    (T' T : Table) (hc : bagClauses b q = true) (hs : Spec.scopeAfter s q = some s') (hpa : pa ∉ s)
+    (hin : pa ∉ introduced q) (h : HRel pa T' T) :
+    ∃ R' R, Spec.denoteClauses A env q T' = .ok R' ∧ Spec.denoteClauses A env q T = .ok R ∧
+      R'.rows.Perm R.rows :=
+  denote_bag_congr A env pa q b s s' T' T hc hs hpa hin h
 
 /-- the induction behind it, from any intermediate state: a loop state whose plan evaluates to `T` and whose
     compile-time scope is the reference scope `s`, followed by core clauses -/
@@ -297,6 +352,28 @@ def q2 : Query :=
 
 example : Spec.WellScoped q2 ∧ InF1 q2 = true ∧ NoKnownTrigger small { g := g1 } q2 = true := by decide
 example : Agrees (Exec.run small { g := g1 } q2) (Spec.denote small { g := g1 } q2) := by decide
+
+/-- q1 = `MATCH (n:A) WHERE n.k > 1 RETURN n.k AS k` is an F1a node-pattern query; so is the push-down case
+    `MATCH (n:A) WHERE n.k = 2 RETURN n` (IndexSeek + pushed filter) -/
+example : coreClauses true q1.tail = true := by decide
+def q1b : Query :=
+  [.match_ false [⟨⟨some "n", ["A"], []⟩, []⟩], .where_ (.cmp .eq (.prop "n" "k") (.lit (.int 2))),
+   .return_ ⟨false, [⟨.plain (.var "n"), "n"⟩], [], none, none⟩]
+example : coreClauses true q1b.tail = true ∧ Spec.WellScoped q1b := by decide
+example : okRows (Exec.run small { g := g1 } q1b) = some [[("n", .node 1)]] := by decide
+
+/-- `MATCH (a:A)-[r:T]->(b) WHERE a.k = 1 RETURN b.k AS k` meets every hypothesis of `C11_F1a_hop_out` -/
+def q5tail : Query :=
+  [.where_ (.cmp .eq (.prop "a" "k") (.lit (.int 1))), .return_ ⟨false, [⟨.plain (.prop "b" "k"), "k"⟩], [], none, none⟩]
+example : bagClauses true q5tail = true ∧ pa0 ∉ introduced q5tail ∧ "a" ≠ pa0 ∧ "b" ≠ pa0 ∧ "r" ≠ pa0 ∧
+    Spec.WellScoped (.match_ false [hopPat "a" ["A"] (some "r") ["T"] "b" []] :: q5tail) := by decide
+example : okRows (Exec.run small { g := g1 } (.match_ false [hopPat "a" ["A"] (some "r") ["T"] "b" []] :: q5tail)) =
+    some [[("k", .int 2)]] := by decide
+
+/-- the undirected instance `MATCH (a:A)-[r:T]-(b) WHERE a.k = 1 RETURN b.k AS k` (hypotheses as for q5tail) -/
+example : Spec.WellScoped (.match_ false [hopPatD .both "a" ["A"] (some "r") ["T"] "b" []] :: q5tail) := by decide
+example : okRows (Exec.run small { g := g1 } (.match_ false [hopPatD .both "a" ["A"] (some "r") ["T"] "b" []] :: q5tail)) =
+    some [[("k", .int 2)]] := by decide
 
 /-- `UNWIND [3,1,1] AS x WITH DISTINCT x AS y SKIP 1 WHERE y < 5 RETURN y AS z LIMIT 3` is a core query -/
 def q3 : Query :=
